@@ -283,3 +283,25 @@ package shard
 //@   property C15
 //@   callee (writecache.Cache).Delete
 //@   requires [only_the_plain_garbage_mark_hides_the_object_at_once] mark == metabase.GarbageMarkDefault
+
+// "Every modifying request fails with a mode error": a modifying operation of the shard
+// reports success only on a path where it found the mode writable itself - also when it ends
+// up with nothing to write (an empty dump to restore, an empty batch).
+//@ func (*Shard).Restore
+//@   property C14
+//@   ensures [success_only_in_a_writable_mode] err == nil ==> writableMode() || s.info.Mode == mode.ReadWrite
+//@ func (*Shard).Put
+//@   property C14
+//@   ensures [success_only_in_a_writable_mode] err == nil ==> writableMode() || s.info.Mode == mode.ReadWrite
+//@ func (*Shard).deleteObjs
+//@   property C14
+//@   ensures [success_only_in_a_writable_mode] err == nil ==> writableMode() || s.info.Mode == mode.ReadWrite
+//@ func (*Shard).MarkGarbage
+//@   property C14
+//@   ensures [success_only_in_a_writable_mode] err == nil ==> writableMode() || s.info.Mode == mode.ReadWrite
+//@ func (*Shard).InhumeContainer
+//@   property C14
+//@   ensures [success_only_in_a_writable_mode] err == nil ==> writableMode() || s.info.Mode == mode.ReadWrite
+//@ func (*Shard).DeleteContainer
+//@   property C14
+//@   ensures [success_only_in_a_writable_mode] err == nil ==> writableMode() || s.info.Mode == mode.ReadWrite
